@@ -8,9 +8,15 @@ package main
 //   keys-collide reproduces a collision predicted by TLC with two real operations
 
 import (
+	"bytes"
 	"encoding/hex"
 	"fmt"
 	"sort"
+
+	cstates "github.com/polynetwork/poly/core/states"
+	"github.com/polynetwork/poly/native"
+	ccm "github.com/polynetwork/poly/native/service/cross_chain_manager"
+	"github.com/polynetwork/poly/native/service/cross_chain_manager/ripple"
 
 	"github.com/polynetwork/poly/common"
 	ccmbtc "github.com/polynetwork/poly/native/service/cross_chain_manager/btc"
@@ -261,7 +267,96 @@ func keysRecord() {
 	for _, r := range collideRedeem() {
 		emit(r.Op, map[string]string{r.Raw: ""})
 	}
+	// (4) long variable-width fields: every record kind with a Var part is written with 255 .. 1000 byte parameters, each in
+	// a brand-new (not recycled) universe - through the real operation where it accepts the length, else through the
+	// contract's put helper, else through CacheDB.Put with the key built by the contract's own ConcatKey call shape
+	for _, lw := range longWriters() {
+		for _, n := range []int{255, 256, 257, 300, 1000} {
+			sb := nativekit.New()
+			w := &wWorld{sb: sb, vals: detAccounts("polyval", 4), owner: detAccount("owner"), stranger: detAccount("stranger"), extra: detAccount("peer5")}
+			w.sb.SeedValidators(w.vals, 1)
+			w.op = nativekit.Operator(w.vals)
+			base := sb.WriteSet()
+			long := bytes.Repeat([]byte{0xa5}, n)
+			pan := vio.Safe(func() {
+				sb.Cache.Reset()
+				ns := sb.Service(nativekit.Tx(w.vals[0].Address, w.op), nil)
+				lw.write(w, ns, long)
+				sb.Cache.Commit()
+			})
+			if pan != "" {
+				sb.Cache.Reset()
+			}
+			emit(fmt.Sprintf("long:%s:%d", lw.kind, n), newWrites(base, sb.WriteSet()))
+		}
+	}
 	vio.Emit(map[string]interface{}{"summary": true, "writes": len(seen)})
+}
+
+type longWriter struct {
+	kind  string
+	write func(w *wWorld, ns *native.NativeService, long []byte)
+}
+
+func longWriters() []longWriter {
+	NM, SCM, CCM := utils.NodeManagerContractAddress, utils.SideChainManagerContractAddress, utils.CrossChainManagerContractAddress
+	raw := func(ns *native.NativeService, key []byte) {
+		ns.GetCacheDB().Put(key, cstates.GenRawStorageItem([]byte{1}))
+	}
+	u8 := func(v uint64) []byte { return utils.GetUint64Bytes(v) }
+	return []longWriter{
+		// real operation: RegisterRedeem takes any contract address length
+		{"scm/bindSignInfo:registerRedeem", func(w *wWorld, ns *native.NativeService, long []byte) {
+			redeem, privs := redeemFixture()
+			msg := catBytes(redeem, myLEBytes(1, 8), long, myLEBytes(2, 8), myLEBytes(0, 8))
+			q := &scm.RegisterRedeemParam{RedeemChainID: 1, ContractChainID: 2, Redeem: redeem, CVersion: 0, ContractAddress: long, Signs: [][]byte{btcSign(privs[0], msg)}}
+			w.sb.Call(scm.RegisterRedeem, nativekit.Tx(w.stranger.Address), ser(q.Serialization))
+		}},
+		// the contracts' put helpers
+		{"ccm/doneTx", func(w *wWorld, ns *native.NativeService, long []byte) { ccmcom.PutDoneTx(ns, long, 7) }},
+		{"ccm/request", func(w *wWorld, ns *native.NativeService, long []byte) { ccm.PutRequest(ns, long, 7, []byte("req")) }},
+		{"ccm/voteInfo", func(w *wWorld, ns *native.NativeService, long []byte) {
+			consensus_vote.CheckVotes(ns, long, w.vals[0].Address)
+		}},
+		{"ccm/btc.utxos", func(w *wWorld, ns *native.NativeService, long []byte) {
+			ccmbtc.VerifPutUtxos(ns, 1, string(long), &ccmbtc.Utxos{})
+		}},
+		{"ccm/ripple.multisignInfo", func(w *wWorld, ns *native.NativeService, long []byte) {
+			ripple.PutMultisignInfo(ns, string(long), &ripple.MultisignInfo{SigMap: map[string]bool{"a": true}})
+		}},
+		{"ccm/ripple.txInfo", func(w *wWorld, ns *native.NativeService, long []byte) { ripple.PutTxJsonInfo(ns, 7, long, "{}") }},
+		// no exported writer accepts the length: CacheDB.Put with the key in the contract's shape
+		{"nm/peerApply", func(w *wWorld, ns *native.NativeService, long []byte) {
+			raw(ns, utils.ConcatKey(NM, []byte(nm.PEER_APPLY), long))
+		}},
+		{"nm/peerIndex", func(w *wWorld, ns *native.NativeService, long []byte) {
+			raw(ns, utils.ConcatKey(NM, []byte(nm.PEER_INDEX), long))
+		}},
+		{"nm/blackList", func(w *wWorld, ns *native.NativeService, long []byte) {
+			raw(ns, utils.ConcatKey(NM, []byte(nm.BLACK_LIST), long))
+		}},
+		{"scm/redeemBind", func(w *wWorld, ns *native.NativeService, long []byte) {
+			raw(ns, utils.ConcatKey(SCM, []byte(scm.REDEEM_BIND), u8(1), u8(2), long))
+		}},
+		{"scm/btcTxParam", func(w *wWorld, ns *native.NativeService, long []byte) {
+			raw(ns, utils.ConcatKey(SCM, []byte(scm.BTC_TX_PARAM), long, u8(1)))
+		}},
+		{"scm/redeemScript", func(w *wWorld, ns *native.NativeService, long []byte) {
+			raw(ns, utils.ConcatKey(SCM, []byte(scm.REDEEM_SCRIPT), u8(1), long))
+		}},
+		{"ccm/btc.stxos", func(w *wWorld, ns *native.NativeService, long []byte) {
+			raw(ns, utils.ConcatKey(CCM, []byte(ccmbtc.STXOS), u8(1), long))
+		}},
+		{"ccm/btc.multiSignInfo", func(w *wWorld, ns *native.NativeService, long []byte) {
+			raw(ns, utils.ConcatKey(CCM, []byte(ccmbtc.MULTI_SIGN_INFO), long))
+		}},
+		{"ccm/btc.fromTx", func(w *wWorld, ns *native.NativeService, long []byte) {
+			raw(ns, utils.ConcatKey(CCM, []byte(ccmbtc.BTC_FROM_TX_PREFIX), long))
+		}},
+		{"ccm/btc.tx", func(w *wWorld, ns *native.NativeService, long []byte) {
+			raw(ns, utils.ConcatKey(CCM, []byte(ccmbtc.BTC_TX_PREFIX), long))
+		}},
+	}
 }
 
 func newWrites(base, now map[string]string) map[string]string {
